@@ -17,6 +17,11 @@ func (op *FsTxn) commitWait(wait bool) bool {
 	op.preCommit()
 	ok := op.Atxn.Op.CommitWait(wait)
 	verifhookCommitted(op, ok)
+	if !ok {
+		// the journal rejected the transaction: nothing was applied
+		op.Abort()
+		return false
+	}
 	op.postCommit()
 	verifhook.Emit(verifhook.EvPostCommit, op, 0)
 	return ok
@@ -53,6 +58,11 @@ func (op *FsTxn) CommitFh() bool {
 // buffers that need to be written to log. So, call commit.
 func (op *FsTxn) Abort() bool {
 	verifhook.Emit(verifhook.EvAbort, op, 0)
+	// the cached inodes (and their name caches) were modified in place;
+	// drop them so that the next user reloads the committed state
+	for inum := range op.inodes {
+		op.Fs.Icache.Invalidate(uint64(inum))
+	}
 	op.releaseInodes()
 	op.Atxn.PostAbort()
 	return true
